@@ -209,4 +209,42 @@ def detailsFine (dbg : DebugOracle) : Nat → List Detail → Bool
 def metadataFine (md : List (Bytes × List Bytes)) : Bool :=
   decide (md.map (·.1)).Nodup && md.all (fun kv => validFieldName kv.1 && kv.2.all validFieldValue)
 
+/-! ### duplicate keys, declaratively
+
+`checkNoDuplicateKeys` keeps one key set PER OBJECT.  The path it renders (`what.key`,
+`what[i]`) is used for the message only: it is not injective (`{"a.b":1,"a":{"b":2}}` has two
+different members rendered `a.b`), so it cannot stand for the member. -/
+
+/-- some object of the document, at whatever depth, has one key twice.  Nothing else about the
+key strings matters: keys of different objects are never compared. -/
+inductive HasRepeatedKey : Json → Prop
+  | here {fs : Fields} : ¬ (keysOf fs).Nodup → HasRepeatedKey (.obj fs)
+  | member {fs : Fields} {k : Bytes} {v : Json} : (k, v) ∈ fs → HasRepeatedKey v → HasRepeatedKey (.obj fs)
+  | elem {xs : List Json} {x : Json} : x ∈ xs → HasRepeatedKey x → HasRepeatedKey (.arr xs)
+
+/-- `what + "." + key` (the key itself at the top) -/
+def memberPath (what k : Bytes) : Bytes := if what.isEmpty then k else what ++ [46] ++ k
+
+def natBytes (n : Nat) : Bytes := (Nat.toDigits 10 n).map (fun c => c.toNat.toUInt8)
+
+/-- `what + "[i]"` -/
+def elemPath (what : Bytes) (i : Nat) : Bytes := what ++ [91] ++ natBytes i ++ [93]
+
+mutual
+/-- the rendered path of every object member of the document, in document order -/
+def keyPaths (what : Bytes) : Json → List Bytes
+  | .arr xs => keyPathsList what 0 xs
+  | .obj fs => keyPathsFields what fs
+  | _ => []
+def keyPathsList (what : Bytes) (i : Nat) : List Json → List Bytes
+  | [] => []
+  | x :: xs => keyPaths (elemPath what i) x ++ keyPathsList what (i + 1) xs
+def keyPathsFields (what : Bytes) : Fields → List Bytes
+  | [] => []
+  | (k, v) :: fs => memberPath what k :: (keyPaths (memberPath what k) v ++ keyPathsFields what fs)
+end
+
+/-- COUNTER-MODEL (not the code): one document-wide set keyed by the rendered path -/
+def pathSetFlags (what : Bytes) (j : Json) : Bool := !decide (keyPaths what j).Nodup
+
 end ConfModel.ConnectJsonSpec
